@@ -43,6 +43,20 @@ func genCursorCase(t *rapid.T) CursorCase {
 			Op{Kind: "clone", A: rapid.IntRange(0, 1).Draw(t, "cside")}, near, Op{Kind: "switch", A: rapid.IntRange(0, 1).Draw(t, "csw")},
 			Op{Kind: "cursor", A: x, B: rapid.IntRange(0, 9).Draw(t, "cb2")}, Op{Kind: "switch", A: 0}, Op{Kind: "cursor", A: x, B: rapid.IntRange(0, 9).Draw(t, "cb3")})
 	}
+	if rapid.IntRange(0, 3).Draw(t, "shrinkScenario") == 0 {
+		// a tree that shrank by removals but not far enough for the rebuild
+		// (keys deeper than a fresh tree of that size would have them), then
+		// cursors held across read-only calls - among them Add of present keys
+		c.Tree.Beta = rapid.SampledFrom([]int{0, 0, 0, 50, 250, 500}).Draw(t, "shrinkBeta")
+		l := rapid.IntRange(8, 39).Draw(t, "shrinkLen")
+		c.Tree.Ops = append(c.Tree.Ops, Op{Kind: "clear"}, Op{Kind: rapid.SampledFrom([]string{"asc", "desc", "zig"}).Draw(t, "shrinkRun"), A: l - 1})
+		for m := rapid.IntRange(l/4, l/2-1).Draw(t, "shrinkRemovals"); m > 0; m-- {
+			c.Tree.Ops = append(c.Tree.Ops, Op{Kind: "removeI", A: rapid.IntRange(0, 400).Draw(t, "shrinkRm")})
+		}
+		for j := 0; j < 3; j++ {
+			c.Tree.Ops = append(c.Tree.Ops, Op{Kind: "cursorI", A: rapid.IntRange(0, 400).Draw(t, "shrinkCur"), B: 2 * rapid.IntRange(0, 4).Draw(t, "shrinkSel")})
+		}
+	}
 	c.Moves = rapid.SliceOfN(rapid.Custom(func(t *rapid.T) Move {
 		mv := Move{Kind: rapid.SampledFrom(moveKinds).Draw(t, "mk"), A: rapid.IntRange(0, 500).Draw(t, "ma")}
 		if mv.Kind == "inorder" {
